@@ -89,6 +89,15 @@ var mutOps = []mutOp{
 	}},
 	{"unknownBias", func(g G, req M, v *ReqView) bool {
 		b := M{"name": g.Pick("noSuchBias", "Fatigue", "criteriaomission", wrongName(g, allBiases...)), "props": M{}}
+		// an enabled entry with an unknown name is rejected whatever else it says (it would never fire with probability 0)
+		switch g.Int(0, 4) {
+		case 0:
+			b["applyProbability"] = 0.0
+		case 1:
+			b["applyProbability"] = g.PickF(0.5, 1, 1e-9)
+		case 2:
+			b["disabled"] = false
+		}
 		bs := asL(req["biases"])
 		pos := g.Int(0, len(bs))
 		nb := append([]interface{}{}, bs[:pos]...)
@@ -110,7 +119,18 @@ var mutOps = []mutOp{
 	}},
 	{"maxBelowMin", func(g G, req M, v *ReqView) bool {
 		p := validOmission()
-		p["min"], p["max"] = 1, 0
+		switch g.Int(0, 4) {
+		case 0:
+			p["min"], p["max"] = 1, 0
+		case 1:
+			p["min"], p["max"] = 2, 1
+		case 2:
+			p["min"], p["max"] = 1, -1
+		case 3:
+			p["max"] = -1 // min is 0 by default
+		default:
+			p["min"], p["max"] = 1, -9007199254740992.0
+		}
 		firstBias(req, M{"name": g.Pick("criteriaOmission", "preferenceReversal"), "props": p})
 		return true
 	}},
@@ -119,7 +139,25 @@ var mutOps = []mutOp{
 		return true
 	}},
 	{"zeroBoundingScaling", func(g G, req M, v *ReqView) bool {
-		firstBias(req, M{"name": "fatigue", "props": M{"function": "const", "params": M{"value": 0.1}, "allowedValuesRangeScaling": 0}})
+		// wherever bounding is configured, and whether or not the bias would change anything
+		switch g.Int(0, 4) {
+		case 0:
+			firstBias(req, M{"name": "fatigue", "props": M{"function": "const", "params": M{"value": 0.1}, "allowedValuesRangeScaling": 0}})
+		case 1:
+			firstBias(req, M{"name": "fatigue", "props": M{"function": "const", "params": M{"value": 0.0}, "allowedValuesRangeScaling": 0}})
+		case 2:
+			firstBias(req, M{"name": "fatigue", "props": M{"function": "expFromZero", "params": M{"alpha": 0.1, "multiplier": 1.0, "queryNumber": 0}, "allowedValuesRangeScaling": 0}})
+		case 3:
+			firstBias(req, M{"name": "criteriaConcealment", "props": M{"randomSeed": 3, "allowedValuesRangeScaling": 0}})
+		default:
+			firstBias(req, M{"name": "anchoring", "props": M{
+				"anchoringAlternatives": []interface{}{M{"alternative": v.Known[0].Id, "coefficient": 1}},
+				"loss":                  M{"function": "linear", "params": M{"a": 1, "b": 0}},
+				"gain":                  M{"function": "linear", "params": M{"a": 1, "b": 0}},
+				"referencePoints":       M{"function": "ideal"},
+				"applier":               M{"function": g.Pick("inline", "newCriterion"), "params": M{"allowedValuesRangeScaling": 0}},
+			}})
+		}
 		return true
 	}},
 	{"mixingRatioOutOfRange", func(g G, req M, v *ReqView) bool {
@@ -295,7 +333,14 @@ var mutOps = []mutOp{
 		}
 		ec := asM(v.MP["electreCriteria"])
 		e := asM(ec[v.Criteria[g.Int(0, len(v.Criteria)-1)].Id])
-		switch g.Int(0, 3) {
+		switch g.Int(0, 6) {
+		case 4: // no preference threshold (absent, or the all-zero function that means absent), veto not above q
+			e["q"], e["v"] = M{"b": 2.0}, M{"b": g.PickF(1, 2)}
+			delete(e, "p")
+		case 5:
+			e["q"], e["p"], e["v"] = M{"b": 2.0}, M{"a": 0.0, "b": 0.0}, M{"b": g.PickF(1, 2)}
+		case 6:
+			e["q"], e["p"], e["v"] = M{"b": 1.0}, M{"b": 3.0}, M{"b": g.PickF(2, 3)}
 		case 0:
 			e["q"], e["p"] = M{"b": 2.0}, M{"b": 1.0}
 			delete(e, "v")
@@ -379,7 +424,23 @@ func mutateConstraint(t *rapid.T, gr GenReq) GenReq {
 		// JSON round trip so that all containers are M / []interface{}
 		req = parseReqM(mustJSON(req))
 		v := viewReq(req)
+		nBefore := len(asL(req["biases"]))
 		if op.apply(g, req, v) {
+			// an operator that puts an offending bias in front: half of the time the offender goes to the END of the
+			// list instead, behind biases that have already changed the working data (never behind an omission, which
+			// could leave a state in which the offending bias has nothing to do and so nothing to check)
+			if bs := asL(req["biases"]); len(bs) == nBefore+1 && nBefore > 0 && op.name != "missingWeightBeforeRandomOmission" && g.Bool() {
+				movable := true
+				for _, b := range bs[1:] {
+					bm := asM(b)
+					if str(bm["name"]) == "criteriaOmission" || bm["applyProbability"] != nil || bm["disabled"] != nil {
+						movable = false
+					}
+				}
+				if movable {
+					req["biases"] = append(append([]interface{}{}, bs[1:]...), bs[0])
+				}
+			}
 			labels := append(append([]string{}, gr.Labels...), "mutant="+op.name)
 			return GenReq{Req: req, Labels: labels}
 		}
